@@ -75,8 +75,9 @@ func c01Entries() []c01Entry {
 
 			return m, in, err
 		}, true},
-		{"Message.Decode", func(in []byte, _ *gen.Rand) (*stun.Message, []byte, error) {
-			m := &stun.Message{Raw: in}
+		{"Message.Decode", func(in []byte, r *gen.Rand) (*stun.Message, []byte, error) {
+			m := usedMessage(r) // the struct may have listed another message before; Raw is replaced by the input in place
+			m.Raw = in
 			err := m.Decode()
 
 			return m, in, err
@@ -126,7 +127,8 @@ func c01Entries() []c01Entry {
 			default:
 				capacity = 1024
 			}
-			m := &stun.Message{Raw: make([]byte, r.Intn(capacity+1), capacity)}
+			m := usedMessage(r)
+			m.Raw = make([]byte, r.Intn(capacity+1), capacity)
 			rd := &scriptedReader{data: in, mode: 0}
 			if r.Chance(1, 5) {
 				rd.mode = 1 + r.Intn(3)
